@@ -1,16 +1,12 @@
-(* Property C03: concrete counterexamples (evaluated in the model with the unittest configuration) to the literal
-   statement "removing a transaction / a block right after applying it restores every delegate record".
+(* Property C03: concrete evaluations in the model (unittest configuration).
 
-   1. Order of the funds of a pool.  ApplyUnstake drops a fund that reaches 0; its undo (ApplyStake with reverse = true)
-      re-creates the fund by APPENDING it to the pool's fund list.  When the fund was not the last of the list, the
-      pool's record after apply + remove lists the same funds (owner, amount, unlock height) in a different order.
-      The Go code keeps funds in insertion order (chaintype.Delegate.SortFunds exists but is never called, although
-      a comment in ApplyStake says that SetDelegate sorts the funds), so the stored record of the pool after a
-      reorganisation differs from the record of a node that followed the main chain only.  Nothing in the model reads
-      the order (lottery, reward split and fund lookup are order independent when owners are distinct); the
-      implementation-side check of C03 compares the funds of a pool by owner for the same reason.
-      Proofs/Undo3.v proves the undo theorems up to this order; Proofs/Undo2.v proves them exactly when every fully
-      unstaked fund is the last of its pool.
+   1. Regression witness of finding R21.  Before the repair d31bf91 of /repo the undo of an unstake that had emptied a
+      fund (ApplyStake with reverse = true) re-created the fund by APPENDING it to the pool's fund list: when the fund
+      was not the last of the list, the pool's record after apply + remove listed the same funds in another order
+      (chaintype.Delegate.SortFunds was never called), so the literal statement "disconnecting a block restores every
+      delegate record" was false: on the ledger below, pool 7 came back as [5:50; 3:100] instead of [3:100; 5:50]
+      (this file then proved  ~ C03_undo_block_full  with this witness).  The fund is now re-inserted at the position it
+      has in the record saved under the transaction id, and the same evaluation restores the record exactly.
    2. A fund with amount 0 (does not occur in reachable ledgers, see FPos in Proofs/Undo.v): staking into it and
       undoing the stake drops the fund.  Shows that the hypothesis FPos of the undo theorems cannot be omitted. *)
 From Coq Require Import Sorting.Sorted.
@@ -27,54 +23,24 @@ Definition wit_tx : tx := mktx 77 5 1 1 true false (TUnstake 100 7) 1 10.
 (* a version-0 block at height 5 containing that transaction *)
 Definition wit_block : lblock := mklblock 99 0 5 21 0 0 false 0 [wit_tx].
 
-Lemma wit_SInv : SInv wit_ledger.
-Proof.
-  split; [repeat constructor|]. split; [repeat constructor|]. split; vm_compute; reflexivity.
-Qed.
-
-Lemma wit_FPos : FPos wit_ledger.
-Proof.
-  intros id d f Hg Hin. unfold get_dlg, wit_ledger in Hg. cbn [dlgs nget aget] in Hg.
-  destruct (id =? 7); [|discriminate]. injection Hg as <-. cbn [d_funds In] in Hin.
-  destruct Hin as [<-|[<-|[]]]; cbn [f_amt]; lia.
-Qed.
-
 Definition wit_l1 : ledger :=
   Eval vm_compute in match apply_tx cfg_unittest wit_ledger wit_tx 5 99 4 with Ok l => l | _ => ledger0 end.
 Definition wit_l2 : ledger :=
   Eval vm_compute in match remove_tx cfg_unittest wit_l1 wit_tx 99 5 with Ok l => l | _ => ledger0 end.
-
-(* a transaction: every hypothesis of the undo theorem holds except "the emptied fund is the last of its pool" *)
-Theorem undo_unstake_order_refuted :
-  SInv wit_ledger /\ FPos wit_ledger /\ total_bal wit_ledger < two64 /\
-  wf_tx cfg_unittest wit_tx /\ tx_total cfg_unittest wit_tx = Some 100 /\
-  apply_tx cfg_unittest wit_ledger wit_tx 5 99 4 = Ok wit_l1 /\
-  remove_tx cfg_unittest wit_l1 wit_tx 99 5 = Ok wit_l2 /\
-  get_dlg wit_ledger 7 = Some (mkdlg 7 9 0 [mkfund 3 100 0; mkfund 5 50 0]) /\
-  get_dlg wit_l2 7 = Some (mkdlg 7 9 0 [mkfund 5 50 0; mkfund 3 100 0]) /\
-  get_dlg wit_l2 7 <> get_dlg wit_ledger 7.
-Proof.
-  split; [exact wit_SInv|]. split; [exact wit_FPos|]. split; [vm_compute; reflexivity|].
-  split; [repeat split; vm_compute; reflexivity|].
-  split; [vm_compute; reflexivity|]. split; [vm_compute; reflexivity|]. split; [vm_compute; reflexivity|].
-  split; [vm_compute; reflexivity|]. split; [vm_compute; reflexivity|]. vm_compute. discriminate.
-Qed.
-
-(* a block: the literal full statement of Props/C03.v (C03_undo_block_full) is false *)
 Definition wit_lB : ledger :=
   Eval vm_compute in match apply_block cfg_unittest 201 wit_ledger wit_block 4 with Ok l => l | _ => ledger0 end.
+Definition wit_lB2 : ledger :=
+  Eval vm_compute in match remove_block cfg_unittest 201 wit_lB wit_block 5 with Ok l => l | _ => ledger0 end.
 
-Theorem undo_block_full_refuted :
-  ~ (forall cfg genesis_addr l b top_h l1,
-       apply_block cfg genesis_addr l b top_h = Ok l1 ->
-       exists l2, remove_block cfg genesis_addr l1 b top_h = Ok l2 /\ same_accounts l2 l /\
-                  (forall id, get_dlg l2 id = get_dlg l id) /\ staked l2 = staked l).
-Proof.
-  intros H.
-  assert (E : apply_block cfg_unittest 201 wit_ledger wit_block 4 = Ok wit_lB) by (vm_compute; reflexivity).
-  destruct (H cfg_unittest 201 wit_ledger wit_block 4 wit_lB E) as (l2 & Hr & _ & Hd & _).
-  vm_compute in Hr. injection Hr as <-. specialize (Hd 7). vm_compute in Hd. discriminate Hd.
-Qed.
+Theorem undo_unstake_order_witness_restored :
+  apply_tx cfg_unittest wit_ledger wit_tx 5 99 4 = Ok wit_l1 /\
+  get_dlg wit_l1 7 = Some (mkdlg 7 9 0 [mkfund 5 50 0]) /\
+  remove_tx cfg_unittest wit_l1 wit_tx 99 5 = Ok wit_l2 /\
+  dlgs wit_l2 = dlgs wit_ledger /\ accts wit_l2 = accts wit_ledger /\ staked wit_l2 = staked wit_ledger /\
+  apply_block cfg_unittest 201 wit_ledger wit_block 4 = Ok wit_lB /\
+  remove_block cfg_unittest 201 wit_lB wit_block 5 = Ok wit_lB2 /\
+  dlgs wit_lB2 = dlgs wit_ledger /\ staked wit_lB2 = staked wit_ledger.
+Proof. repeat split; vm_compute; reflexivity. Qed.
 
 (* ---- a fund with amount 0 ---- *)
 Definition zero_ledger : ledger :=
